@@ -243,8 +243,12 @@ func (h *history) step(i int) {
 			}
 			args = append(args, ast.NewUintNode(1, uint8(r.Intn(256))))
 		}
-		if n > 0 && r.Chance(1, 4) {
-			args = append(args, "...")
+		if n > 0 && r.Chance(1, 3) {
+			// an ellipsis anywhere after the first item (items after it matter to how it is removed or expanded)
+			pos := 1 + r.Intn(len(args))
+			args = append(args, nil)
+			copy(args[pos+1:], args[pos:])
+			args[pos] = "..."
 		}
 		if n > 0 && r.Chance(1, 5) && !used["lv"] {
 			args = append(args, "lv")
